@@ -112,8 +112,10 @@ class Env:
         return d
 
     def symseq(self, name, kind):
-        t = z3.Const(name, z3.SeqSort(kind.sort()))
-        s = SymSeq(t, kind)
+        arr = z3.Const(name, z3.ArraySort(IntSort, kind.sort()))
+        n = z3.Int(name + '_len')
+        self.ctx.assume(n >= 0)
+        s = SymSeq(arr, n, kind)
         self.ctx.inputs[name] = s
         return s
 
